@@ -309,6 +309,7 @@ package main
 // ---- lock discipline (C20) ----
 //@ guarded BrokerContext.idToSnowflake by snowflakeLock
 //@ guarded Metrics.countryStats by lock
+//@ guarded Metrics.geoipdb by lock
 //@ guarded Metrics.clientRoundtripEstimate by lock
 //@ guarded Metrics.proxyIdleCount by lock
 //@ guarded Metrics.clientDeniedCount by lock
